@@ -16,7 +16,16 @@
 (* writer exclusively.  Pinned = TRUE renders the operations as the pinned tree has them (the    *)
 (* suspected defects D9: unlocked reads and a write under a read lock); TLC must then find the   *)
 (* violation (MC_Concurrency_pinned.cfg, expected counterexample = the model is not vacuous).    *)
-(* Pinned = FALSE is the discipline the property demands.                                        *)
+(* Pinned = FALSE is the discipline the property demands.  InPlace = TRUE renders the            *)
+(* registration round as altering the PUBLISHED map of controlled validators entry by entry       *)
+(* (under the write lock) instead of replacing it: the REST request reads the entries of the map  *)
+(* it picked up without the lock, which is only disciplined while published maps are never         *)
+(* altered - TLC must find that violation too (MC_Concurrency_inplace_registrar.cfg).              *)
+(*                                                                                              *)
+(* The groups are derived from the goroutine families that main.go wires up (scheduler jobs,      *)
+(* event handlers of the beacon nodes' streams, periodic refreshers, start-up goroutines and the   *)
+(* REST daemon that serves the beacon nodes' MEV-boost requests) x the shared fields of every      *)
+(* service structure: docs/C17.md lists the table of overlapping pairs and the group of each.      *)
 (*                                                                                              *)
 (* Stated limit: whether two memory accesses of the Go program really are unsynchronised is a     *)
 (* fact about the Go memory model that no specification at this level can observe.  The binding   *)
@@ -28,9 +37,12 @@ EXTENDS Integers, FiniteSets, Sequences, TLC
 
 CONSTANTS Groups,     \* the groups explored by this configuration (subset of AllGroups)
           Pinned,     \* render the lock acquisitions as on the pinned tree
+          InPlace,    \* render the registration round as altering the published controlled-validators map in place
           MaxPar      \* maximal number of overlapping operations in a schedule (3)
 
-AllGroups == {"wallet", "blockrelay", "messenger", "controller", "cache", "validators", "attester"}
+AllGroups == {"wallet", "blockrelay", "messenger", "controller", "cache", "validators", "attester",
+              \* the REST (MEV-boost) surface of the block relay and two more pairs of the re-derived table
+              "registrar", "bids", "restcfg", "exechead", "syncagg", "bestvotes", "bidstrategy"}
 
 -----------------------------------------------------------------------------
 (* ---------------------------- part (a): sequential meaning -------------------------------- *)
@@ -38,7 +50,7 @@ AllGroups == {"wallet", "blockrelay", "messenger", "controller", "cache", "valid
 Versions == 0..2        \* execution configuration documents (the value identifies the document)
 Fail == -1              \* the configuration source fails
 
-OldSlot == 10  MidSlot == 60  NewSlot == 100      \* sync committee slot records that are tracked
+OldSlot == 1010  MidSlot == 1040  NewSlot == 1100      \* sync committee slot records that are tracked
 Keep == 32                                        \* minSlotDataRecordsToKeep
 
 \* abstract state at the start of a history
@@ -50,10 +62,19 @@ SeqInits(g) ==
       [] g = "cache" -> {[map |-> {}]}
       [] g = "validators" -> {[node |-> {}, known |-> {}]}
       [] g = "attester" -> {[attested |-> {}]}
+      \* every history of these groups works on validators / auction keys / slots of its own (fresh per history)
+      [] g = "registrar" -> {[controlled |-> {}]}
+      [] g = "bids" -> {[cache |-> [k \in 1..2 |-> {}]]}
+      [] g = "restcfg" -> {[src |-> 0, cfg |-> c] : c \in Versions}
+      [] g = "exechead" -> {[head |-> 0]}
+      [] g = "syncagg" -> {[roots |-> [s \in {} |-> 0]]}
+      [] g = "bestvotes" -> {[seen |-> 0]}
+      [] g = "bidstrategy" -> {[seen |-> 0]}
 
 Put(f, k, v) == [x \in (DOMAIN f) \cup {k} |-> IF x = k THEN v ELSE f[x]]
 Drop(f, D) == [x \in (DOMAIN f) \ D |-> f[x]]
 Mask(S) == (IF 1 \in S THEN 1 ELSE 0) + (IF 2 \in S THEN 2 ELSE 0)
+HeadRoot == 9           \* sync committee aggregation falls back to the head root
 
 \* Sequential meaning: the set of possible [st, res] of operation o in state st (a set, because a
 \* few operations are specified loosely: the property only constrains what they may return).
@@ -61,13 +82,18 @@ Apply(g, st, o) ==
     CASE g = "wallet" ->
             IF o.op = "Refresh" THEN {[st |-> st, res |-> 0]}
             ELSE (* Validating *) {[st |-> st, res |-> st.known]}
-      [] g = "blockrelay" ->
+      [] g \in {"blockrelay", "restcfg"} ->
             CASE o.op = "SourceSet" -> {[st |-> [st EXCEPT !.src = o.x], res |-> 0]}
               [] o.op = "Fetch" -> {[st |-> [st EXCEPT !.cfg = IF st.src = Fail THEN st.cfg ELSE st.src], res |-> 0]}
-              [] OTHER (* Lookup, Register, Auction: the settings of the active document *) ->
+              [] OTHER (* Lookup, Register, Auction, and in group restcfg the REST requests RestRegs (a validator
+                          Vouch does not control: forwarded to the relays of the active document), RestBid (no cached
+                          bid: immediate auction), RestUnblind: the settings of the active document *) ->
                     {[st |-> st, res |-> st.cfg]}
       [] g = "messenger" ->
-            CASE o.op = "Message" -> {[st |-> [st EXCEPT !.rec = Put(st.rec, o.s, o.r)], res |-> 0]}
+            \* Message(s, r) records r for slot s; whether recording also clears the records older than s - Keep
+            \* (the service does since it bounds its records on every insertion) is left open: C17 is about overlap
+            CASE o.op = "Message" -> {[st |-> [st EXCEPT !.rec = Drop(Put(st.rec, o.s, o.r), D)], res |-> 0] :
+                                         D \in {{}, {s \in DOMAIN st.rec : s < o.s - Keep}}}
               [] o.op = "GetData" -> {[st |-> st, res |-> IF o.s \in DOMAIN st.rec THEN st.rec[o.s] ELSE 0]}
               [] OTHER (* Remove(cur): more than the threshold of records exist (driver prefill) *) ->
                     {[st |-> [st EXCEPT !.rec = Drop(st.rec, {s \in DOMAIN st.rec : s < o.cur - Keep})], res |-> 0]}
@@ -83,10 +109,42 @@ Apply(g, st, o) ==
       [] g = "attester" ->
             \* Attest(V): the validators of the duty that had not attested in the epoch attest now
             {[st |-> [st EXCEPT !.attested = st.attested \cup o.v], res |-> Mask(o.v \ st.attested)]}
+      [] g = "registrar" ->
+            \* "Validator" 1, 2 = a block of accounts that every operation of the history handles alike.
+            \* Round(V): a registration round for the accounts V (SubmitValidatorRegistrations).  Whether the set of
+            \* controlled validators is REPLACED by V or EXTENDED by V is left open (C17 is about overlap, not about
+            \* which of the two the service wants); RoundJob: the periodic job (all accounts), which skips its run
+            \* (res 0) when another job-round holds the activity semaphore - see Allowed below.
+            \* RestRegs(V): REST ValidatorRegistrations for V; res = the validators whose registration was
+            \* FORWARDED to the relays, i.e. those Vouch does not control at that point.
+            CASE o.op = "Round" -> {[st |-> [controlled |-> c], res |-> 0] : c \in {o.v, st.controlled \cup o.v}}
+              [] o.op = "RoundJob" -> {[st |-> st, res |-> 0], [st |-> [controlled |-> {1, 2}], res |-> 3]}
+              [] OTHER (* RestRegs *) -> {[st |-> st, res |-> Mask(o.v \ st.controlled)]}
+      [] g = "bids" ->
+            \* cache[k]: the bids cached so far for auction key k (slot/parent/proposer).  Auction(k, b): the relays'
+            \* best bid during this auction is b (0: no acceptable bid, a dummy is cached); res = b.
+            \* RestBid(k, b): REST BuilderBid - a cached bid if there is one (WHICH of several auctions' bids stays
+            \* cached is left open: each is a valid answer), else an immediate auction (bid b) whose result is cached.
+            IF o.op = "Auction" \/ st.cache[o.k] = {}
+            THEN {[st |-> [st EXCEPT !.cache[o.k] = @ \cup {o.b}], res |-> o.b]}
+            ELSE {[st |-> st, res |-> b] : b \in st.cache[o.k]}
+      [] g = "exechead" ->
+            IF o.op = "HeadEvent" THEN {[st |-> [head |-> o.h], res |-> 0]}
+            ELSE (* ExecHead: root and height of ONE head *) {[st |-> st, res |-> st.head]}
+      [] g = "syncagg" ->
+            \* SetRoot(s, r): the messenger job of slot s hands over the root it signed; Aggregate(s): the aggregation
+            \* job takes it (and forgets it), or falls back to the head root
+            IF o.op = "SetRoot" THEN {[st |-> [roots |-> Put(st.roots, o.s, o.r)], res |-> 0]}
+            ELSE IF o.s \in DOMAIN st.roots THEN {[st |-> [roots |-> Drop(st.roots, {o.s})], res |-> st.roots[o.s]]}
+            ELSE {[st |-> st, res |-> HeadRoot]}
+      [] g = "bestvotes" -> {[st |-> st, res |-> 0]}          \* head events return nothing (race half only)
+      \* an auction ends with a verified winning bid (1) or, when its deadline passes first, without one (0): the
+      \* strategies keep no state that a result could depend on (race half only)
+      [] g = "bidstrategy" -> {[st |-> st, res |-> r] : r \in {0, 1}}
 
 \* the sequential prologue of every history of a group (establishes a state worth racing on)
 Prologue(g) ==
-    CASE g = "blockrelay" -> <<[op |-> "SourceSet", x |-> 1], [op |-> "Fetch"]>>
+    CASE g \in {"blockrelay", "restcfg"} -> <<[op |-> "SourceSet", x |-> 1], [op |-> "Fetch"]>>
       [] g = "messenger" -> <<[op |-> "Message", s |-> OldSlot, r |-> 1], [op |-> "Message", s |-> MidSlot, r |-> 2]>>
       [] g = "validators" -> <<[op |-> "NodeSet", x |-> {1}], [op |-> "Refresh"]>>
       [] g = "cache" -> <<[op |-> "BlockEvent", r |-> 1]>>
@@ -94,7 +152,7 @@ Prologue(g) ==
 
 \* environment changes made between prologue and the overlapping operations (TLC picks one)
 Twists(g) ==
-    CASE g = "blockrelay" -> {<<[op |-> "SourceSet", x |-> 2]>>, <<[op |-> "SourceSet", x |-> Fail]>>}
+    CASE g \in {"blockrelay", "restcfg"} -> {<<[op |-> "SourceSet", x |-> 2]>>, <<[op |-> "SourceSet", x |-> Fail]>>}
       [] g = "validators" -> {<<[op |-> "NodeSet", x |-> {1, 2}]>>, <<[op |-> "NodeSet", x |-> {}]>>}
       [] OTHER -> {<<>>}
 
@@ -104,26 +162,51 @@ ParOps(g) ==
       [] g = "blockrelay" -> {[op |-> "Fetch"], [op |-> "Lookup"], [op |-> "Register"], [op |-> "Auction"]}
       [] g = "messenger" -> {[op |-> "Message", s |-> NewSlot, r |-> 3], [op |-> "GetData", s |-> NewSlot],
                              [op |-> "GetData", s |-> OldSlot], [op |-> "Remove", cur |-> NewSlot]}
-      [] g = "controller" -> {[op |-> "Head", node |-> 1], [op |-> "Head", node |-> 2], [op |-> "Job"]}
+      [] g = "controller" -> {[op |-> "Head", node |-> 1], [op |-> "Head", node |-> 2], [op |-> "Job"],
+                              [op |-> "Pending"]}        \* HasPendingAttestations: the main goroutine at shutdown
       [] g = "cache" -> {[op |-> "BlockEvent", r |-> 2], [op |-> "Lookup", r |-> 1], [op |-> "Lookup", r |-> 2], [op |-> "Clean"]}
       [] g = "validators" -> {[op |-> "Refresh"], [op |-> "ByIndex"]}
       [] g = "attester" -> {[op |-> "Attest", v |-> {1}], [op |-> "Attest", v |-> {2}], [op |-> "Attest", v |-> {1, 2}]}
+      \* registration rounds (exported entry point, periodic job) || REST ValidatorRegistrations
+      [] g = "registrar" -> {[op |-> "Round", v |-> {1, 2}], [op |-> "Round", v |-> {1}], [op |-> "RoundJob"],
+                             [op |-> "RestRegs", v |-> {1, 2}]}
+      \* AuctionBlock (proposal job) || REST BuilderBid (cached bid or immediate auction), two auction keys
+      [] g = "bids" -> {[op |-> "Auction", k |-> 1, b |-> 1], [op |-> "Auction", k |-> 2, b |-> 0],
+                        [op |-> "RestBid", k |-> 1, b |-> 2], [op |-> "RestBid", k |-> 2, b |-> 3]}
+      \* config fetch || REST requests (|| AuctionBlock: REST UnblindBlock and the auction share the active document)
+      [] g = "restcfg" -> {[op |-> "Fetch"], [op |-> "RestRegs"], [op |-> "RestBid"], [op |-> "RestUnblind"], [op |-> "Auction"]}
+      \* head events (cache) || ExecutionChainHead (proposal job)
+      [] g = "exechead" -> {[op |-> "HeadEvent", h |-> 1], [op |-> "HeadEvent", h |-> 2], [op |-> "ExecHead"]}
+      \* sync committee messenger job (SetBeaconBlockRoot) || sync committee aggregation job
+      [] g = "syncagg" -> {[op |-> "SetRoot", s |-> 1, r |-> 1], [op |-> "SetRoot", s |-> 2, r |-> 2],
+                           [op |-> "Aggregate", s |-> 1], [op |-> "Aggregate", s |-> 2]}
+      \* head events of two beacon nodes' streams in the "best" proposal strategy (votes of recent blocks)
+      [] g = "bestvotes" -> {[op |-> "HeadEvent", b |-> 1], [op |-> "HeadEvent", b |-> 2]}
+      \* AuctionBlock (proposal job) || immediate auction of a REST BuilderBid in the builder-bid strategies
+      [] g = "bidstrategy" -> {[op |-> "Bid", s |-> "best"], [op |-> "Bid", s |-> "deadline"]}
 
 AllOps(g) == ParOps(g) \cup {Prologue(g)[i] : i \in DOMAIN Prologue(g)}
                        \cup UNION {{t[i] : i \in DOMAIN t} : t \in Twists(g)}
 
 Count(s, x) == Cardinality({i \in DOMAIN s : s[i] = x})
 
-\* overlap patterns: 1..MaxPar operations in gate-release order, at most two instances of each
+\* overlap patterns: 1..Width(g) operations in gate-release order, at most two instances of each
+\* (group restcfg has five operations and two environment twists: pairs)
+Width(g) == IF g = "restcfg" /\ MaxPar > 2 THEN 2 ELSE MaxPar
 Schedules(g) ==
-    {s \in UNION {[1..n -> ParOps(g)] : n \in 1..MaxPar} : \A x \in ParOps(g) : Count(s, x) <= 2}
+    {s \in UNION {[1..n -> ParOps(g)] : n \in 1..Width(g)} : \A x \in ParOps(g) : Count(s, x) <= 2}
 
 -----------------------------------------------------------------------------
 (* ------------------------------ part (b): lock discipline --------------------------------- *)
 
 Guard ==
     [v \in {"wallet.accounts", "blockrelay.executionConfig", "v1.sharedProposerConfig", "messenger.slotDataRecords",
-            "controller.reorgFields", "cache.blockRootToSlot", "validators.maps", "attester.attested"} |->
+            "controller.reorgFields", "cache.blockRootToSlot", "validators.maps", "attester.attested",
+            "blockrelay.controlledValidators", "blockrelay.controlledValidators.entries",
+            "blockrelay.builderBidsCache", "blockrelay.signedValidatorRegistrations",
+            "blockrelay.latestValidatorRegistrations", "util.builders", "cache.executionChainHead",
+            "syncaggregator.beaconBlockRoots", "controller.subscriptionInfos", "controller.pendingAttestations",
+            "bestproposal.priorBlocksVotes", "builderbid.relayPubkeys"} |->
         CASE v = "wallet.accounts" -> "wallet.mutex"
           [] v = "blockrelay.executionConfig" -> "blockrelay.executionConfigMu"
           [] v = "v1.sharedProposerConfig" -> "blockrelay.executionConfigMu"
@@ -131,12 +214,48 @@ Guard ==
           [] v = "controller.reorgFields" -> "controller.reorgMu"       \* does not exist on the pinned tree
           [] v = "cache.blockRootToSlot" -> "cache.blockRootToSlotMu"
           [] v = "validators.maps" -> "validators.validatorsMutex"
-          [] v = "attester.attested" -> "attester.attestedMu"]
+          [] v = "attester.attested" -> "attester.attestedMu"
+          \* the field (a reference to the current map) and the entries of a map that has been published through
+          \* it: readers pick the reference up under the lock and read the entries WITHOUT it, which is disciplined
+          \* exactly as long as nobody writes the entries of a published map
+          [] v = "blockrelay.controlledValidators" -> "blockrelay.controlledValidatorsMu"
+          [] v = "blockrelay.controlledValidators.entries" -> "blockrelay.controlledValidatorsMu"
+          [] v = "blockrelay.builderBidsCache" -> "blockrelay.builderBidsCacheMu"
+          [] v = "blockrelay.signedValidatorRegistrations" -> "blockrelay.signedValidatorRegistrationsMu"
+          [] v = "blockrelay.latestValidatorRegistrations" -> "blockrelay.latestValidatorRegistrationsMu"
+          [] v = "util.builders" -> "util.buildersMu"
+          [] v = "cache.executionChainHead" -> "cache.executionChainHeadMu"
+          [] v = "syncaggregator.beaconBlockRoots" -> "syncaggregator.beaconBlockRootsMu"
+          [] v = "controller.subscriptionInfos" -> "controller.subscriptionInfosMutex"
+          [] v = "controller.pendingAttestations" -> "controller.pendingAttestationsMutex"
+          [] v = "bestproposal.priorBlocksVotes" -> "bestproposal.priorBlocksVotesMu"
+          [] v = "builderbid.relayPubkeys" -> "builderbid.relayPubkeysMu"]
 
 Acc(v, k, held) == [var |-> v, kind |-> k, held |-> held]    \* held: set of <<lock, mode>>
 None == {}
 R(l) == {<<l, "R">>}
 W(l) == {<<l, "W">>}
+
+\* accesses shared by the operations of the block relay groups
+ConfigLookup ==      \* Service.ProposerConfig: the active document under the read lock
+    <<Acc("blockrelay.executionConfig", "R", R("blockrelay.executionConfigMu")),
+      \* the legacy configuration fills defaults into the shared object
+      Acc("v1.sharedProposerConfig", IF Pinned THEN "W" ELSE "R", R("blockrelay.executionConfigMu"))>>
+FetchSteps ==
+    <<Acc("blockrelay.executionConfig", "R", R("blockrelay.executionConfigMu")),
+      Acc("blockrelay.executionConfig", "R", IF Pinned THEN None ELSE R("blockrelay.executionConfigMu")),  \* error path
+      Acc("blockrelay.executionConfig", "W", W("blockrelay.executionConfigMu"))>>
+ControlledSnapshot ==    \* REST ValidatorRegistrations: the reference under the read lock, the entries without
+    <<Acc("blockrelay.controlledValidators", "R", R("blockrelay.controlledValidatorsMu")),
+      Acc("blockrelay.controlledValidators.entries", "R", None)>>
+RoundSteps ==
+    <<Acc("blockrelay.signedValidatorRegistrations", "R", R("blockrelay.signedValidatorRegistrationsMu")),
+      Acc("blockrelay.latestValidatorRegistrations", "R", R("blockrelay.latestValidatorRegistrationsMu")),
+      Acc("blockrelay.signedValidatorRegistrations", "W", W("blockrelay.signedValidatorRegistrationsMu")),
+      Acc("blockrelay.latestValidatorRegistrations", "W", W("blockrelay.latestValidatorRegistrationsMu")),
+      \* the round fills a map of its own and publishes it - or (InPlace) writes the entries of the published map
+      IF InPlace THEN Acc("blockrelay.controlledValidators.entries", "W", W("blockrelay.controlledValidatorsMu"))
+      ELSE Acc("blockrelay.controlledValidators", "W", W("blockrelay.controlledValidatorsMu"))>>
 
 \* The accesses of every operation, in program order, with the locks held at the access.
 Steps(g, o) ==
@@ -146,19 +265,12 @@ Steps(g, o) ==
                    Acc("wallet.accounts", "R", IF Pinned THEN None ELSE R("wallet.mutex"))>>      \* refreshValidators
             ELSE <<Acc("wallet.accounts", "R", IF Pinned THEN None ELSE R("wallet.mutex"))>>      \* accountsForEpochWithFilter
       [] g = "blockrelay" ->
-            CASE o.op = "Fetch" ->
-                    <<Acc("blockrelay.executionConfig", "R", R("blockrelay.executionConfigMu")),
-                      Acc("blockrelay.executionConfig", "R", IF Pinned THEN None ELSE R("blockrelay.executionConfigMu")),  \* error path
-                      Acc("blockrelay.executionConfig", "W", W("blockrelay.executionConfigMu"))>>
+            CASE o.op = "Fetch" -> FetchSteps
               [] o.op = "Register" ->
                     <<Acc("blockrelay.executionConfig", "R", IF Pinned THEN None ELSE R("blockrelay.executionConfigMu")),
                       Acc("v1.sharedProposerConfig", IF Pinned THEN "W" ELSE "R",
                           IF Pinned THEN None ELSE R("blockrelay.executionConfigMu"))>>
-              [] OTHER (* Lookup, Auction, SourceSet *) ->
-                    IF o.op = "SourceSet" THEN <<>>
-                    ELSE <<Acc("blockrelay.executionConfig", "R", R("blockrelay.executionConfigMu")),
-                           \* the legacy configuration fills defaults into the shared object
-                           Acc("v1.sharedProposerConfig", IF Pinned THEN "W" ELSE "R", R("blockrelay.executionConfigMu"))>>
+              [] OTHER (* Lookup, Auction, SourceSet *) -> IF o.op = "SourceSet" THEN <<>> ELSE ConfigLookup
       [] g = "messenger" ->
             CASE o.op = "Message" -> <<Acc("messenger.slotDataRecords", "W", W("messenger.slotDataRecordsMu"))>>
               [] o.op = "GetData" -> <<Acc("messenger.slotDataRecords", "R", IF Pinned THEN None ELSE W("messenger.slotDataRecordsMu"))>>
@@ -167,8 +279,10 @@ Steps(g, o) ==
       [] g = "controller" ->
             IF o.op = "Head"
             THEN <<Acc("controller.reorgFields", "R", IF Pinned THEN None ELSE W("controller.reorgMu")),
-                   Acc("controller.reorgFields", "W", IF Pinned THEN None ELSE W("controller.reorgMu"))>>
-            ELSE <<>>
+                   Acc("controller.reorgFields", "W", IF Pinned THEN None ELSE W("controller.reorgMu")),
+                   Acc("controller.subscriptionInfos", "W", W("controller.subscriptionInfosMutex"))>>     \* old epochs removed
+            ELSE IF o.op = "Job" THEN <<Acc("controller.pendingAttestations", "W", W("controller.pendingAttestationsMutex"))>>
+            ELSE (* Pending *) <<Acc("controller.pendingAttestations", "R", R("controller.pendingAttestationsMutex"))>>
       [] g = "cache" ->
             CASE o.op = "BlockEvent" -> <<Acc("cache.blockRootToSlot", "W", W("cache.blockRootToSlotMu"))>>
               [] o.op = "Lookup" -> <<Acc("cache.blockRootToSlot", "R", R("cache.blockRootToSlotMu")),
@@ -180,6 +294,32 @@ Steps(g, o) ==
               [] OTHER -> <<>>
       [] g = "attester" ->
             <<Acc("attester.attested", "W", W("attester.attestedMu")), Acc("attester.attested", "W", W("attester.attestedMu"))>>
+      [] g = "registrar" ->
+            IF o.op = "RestRegs" THEN ControlledSnapshot ELSE RoundSteps
+      [] g = "bids" ->
+            IF o.op = "Auction"
+            THEN <<Acc("blockrelay.builderBidsCache", "W", W("blockrelay.builderBidsCacheMu"))>>                  \* cacheBid
+            ELSE <<Acc("blockrelay.builderBidsCache", "R", R("blockrelay.builderBidsCacheMu")),                    \* cachedBid
+                   \* miss: one immediate auction at a time (builderBidMu), look again, auction, cache the result
+                   Acc("blockrelay.builderBidsCache", "R", R("blockrelay.builderBidsCacheMu") \cup W("blockrelay.builderBidMu")),
+                   Acc("blockrelay.builderBidsCache", "W", W("blockrelay.builderBidsCacheMu") \cup W("blockrelay.builderBidMu"))>>
+      [] g = "restcfg" ->
+            CASE o.op = "Fetch" -> FetchSteps
+              [] o.op = "SourceSet" -> <<>>
+              [] o.op = "RestRegs" -> ControlledSnapshot \o ConfigLookup \o <<Acc("util.builders", "W", W("util.buildersMu"))>>
+              [] o.op = "RestUnblind" -> ConfigLookup \o <<Acc("util.builders", "W", W("util.buildersMu"))>>
+              [] OTHER (* RestBid, Auction *) -> ConfigLookup
+      [] g = "exechead" ->
+            IF o.op = "HeadEvent" THEN <<Acc("cache.executionChainHead", "W", W("cache.executionChainHeadMu"))>>
+            ELSE <<Acc("cache.executionChainHead", "R", R("cache.executionChainHeadMu"))>>
+      [] g = "syncagg" ->
+            <<Acc("syncaggregator.beaconBlockRoots", "W", W("syncaggregator.beaconBlockRootsMu"))>>
+      [] g = "bestvotes" ->
+            <<Acc("bestproposal.priorBlocksVotes", "R", R("bestproposal.priorBlocksVotesMu")),
+              Acc("bestproposal.priorBlocksVotes", "W", W("bestproposal.priorBlocksVotesMu"))>>
+      [] g = "bidstrategy" ->
+            <<Acc("builderbid.relayPubkeys", "R", R("builderbid.relayPubkeysMu")),
+              Acc("builderbid.relayPubkeys", "W", W("builderbid.relayPubkeysMu"))>>
 
 -----------------------------------------------------------------------------
 VARIABLES g,        \* the group of the current history
@@ -210,10 +350,16 @@ Invoke(i, o) ==
     /\ calls' = Put(calls, i, [op |-> o, status |-> "pending", res |-> NoRes, pc |-> 1, in |-> FALSE])
     /\ UNCHANGED <<g, st, lin>>
 
+\* A job-round may only skip its run (result 0) while another job-round is in progress (activity semaphore).
+Allowed(i, a) ==
+    (g = "registrar" /\ calls[i].op.op = "RoundJob" /\ a.res = 0)
+        => \E j \in DOMAIN calls : j # i /\ calls[j].op.op = "RoundJob" /\ calls[j].status # "returned"
+
 \* the linearization point: the effect takes place and the result is determined
 Linearize(i) ==
     /\ i \in DOMAIN calls /\ calls[i].status = "pending"
     /\ \E a \in Apply(g, st, calls[i].op) :
+          /\ Allowed(i, a)
           /\ st' = a.st
           /\ calls' = [calls EXCEPT ![i].status = "done", ![i].res = a.res]
     /\ lin' = Append(lin, i)
